@@ -19,19 +19,73 @@ pub fn fixed_keys() -> std::hash::RandomState {
 // ---------------------------------------------------------------------------
 // S3: SHA-256 recorder. `update` appends to a ghost buffer, `finalize` returns a
 // cheap deterministic digest of the buffer and leaves the buffer inspectable
-// (REC[..REC_LEN]) until the next `Sha256::new()`. One hasher alive at a time.
+// (crate::stubs::G.rec[..REC_LEN]) until the next `Sha256::new()`. One hasher alive at a time.
 pub const REC_CAP: usize = 192;
-pub static mut REC: [u8; REC_CAP] = [0; REC_CAP];
-pub static mut REC_LEN: usize = 0;
-/// number of finalize() calls so far
-pub static mut REC_FINALIZED: usize = 0;
-/// number of new() calls so far
-pub static mut REC_NEW: usize = 0;
+
+/// All mutable harness state lives in ONE static with a unique initializer.
+/// Reason (measured, Kani 0.68): a `static mut X: usize = 0` shared its storage with the
+/// constant `alloc::raw_vec::ZERO_CAP` -- after `X = 3`, `Vec::new().capacity()` was 3 and
+/// every drop of an empty Vec "freed" a dangling pointer. Separate zero-initialised
+/// scalars are therefore not safe to use as ghost state; one struct whose initial bytes
+/// occur nowhere else is.
+pub struct Globals {
+    pub magic: [u8; 16],
+    // SHA recorder
+    pub rec: [u8; REC_CAP],
+    pub rec_len: usize,
+    /// number of finalize() calls so far
+    pub rec_finalized: usize,
+    /// number of new() calls so far
+    pub rec_new: usize,
+    // payload registers read by the parse_args stubs / the concretizing visitor
+    pub p_n1: clvmr::allocator::NodePtr,
+    pub p_n2: clvmr::allocator::NodePtr,
+    pub p_n3: clvmr::allocator::NodePtr,
+    pub p_u64: u64,
+    pub p_u32: u32,
+    pub p_u8: u8,
+    pub p_sid: u8,
+    pub q_n1: clvmr::allocator::NodePtr,
+    pub q_u64: u64,
+    pub q_u32: u32,
+    pub pa_calls: u32,
+    pub exp_kind: u8,
+    pub cv_calls: u32,
+    // BLS model
+    pub bls_valid_mask: u8,
+    pub bls_verdict: bool,
+    pub bls_calls: u32,
+}
+
+pub static mut G: Globals = Globals {
+    magic: *b"/verif/kh-global",
+    rec: [0; REC_CAP],
+    rec_len: 0,
+    rec_finalized: 0,
+    rec_new: 0,
+    p_n1: clvmr::allocator::NodePtr::NIL,
+    p_n2: clvmr::allocator::NodePtr::NIL,
+    p_n3: clvmr::allocator::NodePtr::NIL,
+    p_u64: 0,
+    p_u32: 0,
+    p_u8: 0,
+    p_sid: 0,
+    q_n1: clvmr::allocator::NodePtr::NIL,
+    q_u64: 0,
+    q_u32: 0,
+    pa_calls: 0,
+    exp_kind: 0,
+    cv_calls: 0,
+    bls_valid_mask: 0,
+    bls_verdict: false,
+    bls_calls: 0,
+};
 
 pub fn sha_new() -> Sha256 {
     unsafe {
-        REC_LEN = 0;
-        REC_NEW += 1;
+        G.rec = [0; REC_CAP];
+        G.rec_len = 0;
+        G.rec_new += 1;
         std::mem::zeroed()
     }
 }
@@ -41,25 +95,31 @@ pub fn sha_update<T: AsRef<[u8]>>(_s: &mut Sha256, buf: T) {
     let mut i = 0;
     while i < b.len() {
         unsafe {
-            if REC_LEN < REC_CAP {
-                REC[REC_LEN] = b[i];
+            if G.rec_len < REC_CAP {
+                G.rec[G.rec_len] = b[i];
             }
-            REC_LEN += 1;
+            G.rec_len += 1;
         }
         i += 1;
     }
 }
 
-/// digest model: position-dependent fold of the recorded bytes into 32 bytes.
-pub fn model_digest(buf: &[u8], len: usize) -> [u8; 32] {
+/// digest model: the recorded stream (zero-padded to REC_CAP) folded in 32-byte blocks,
+/// block k offset by k, and the length mixed into the last byte. All loops have constant
+/// bounds (32 and 6), so harnesses need no more than unwind 34 for it.
+pub fn model_digest(buf: &[u8; REC_CAP], len: usize) -> [u8; 32] {
     let mut r = [0u8; 32];
-    let mut i = 0;
-    while i < len {
-        r[i % 32] = r[i % 32]
-            .rotate_left(3)
-            .wrapping_add(buf[i])
-            .wrapping_add((i / 32) as u8);
-        i += 1;
+    let mut k = 0;
+    while k < REC_CAP / 32 {
+        let mut i = 0;
+        while i < 32 {
+            let pos = 32 * k + i;
+            if pos < len {
+                r[i] ^= buf[pos].wrapping_add(k as u8);
+            }
+            i += 1;
+        }
+        k += 1;
     }
     r[31] ^= len as u8;
     r
@@ -67,17 +127,17 @@ pub fn model_digest(buf: &[u8], len: usize) -> [u8; 32] {
 
 pub fn sha_finalize(_s: Sha256) -> [u8; 32] {
     unsafe {
-        REC_FINALIZED += 1;
-        let n = if REC_LEN < REC_CAP { REC_LEN } else { REC_CAP };
-        model_digest(&REC, n)
+        G.rec_finalized += 1;
+        let n = if G.rec_len < REC_CAP { G.rec_len } else { REC_CAP };
+        model_digest(&G.rec, n)
     }
 }
 
 pub fn rec_len() -> usize {
-    unsafe { REC_LEN }
+    unsafe { crate::stubs::G.rec_len }
 }
 pub fn rec(i: usize) -> u8 {
-    unsafe { REC[i] }
+    unsafe { crate::stubs::G.rec[i] }
 }
 
 /// S5: formatting is never the subject.
@@ -88,5 +148,5 @@ pub fn fmt_stub(_args: std::fmt::Arguments<'_>) -> String {
 /// true iff the SHA recorder is in effect (false under native playback, where the real
 /// SHA-256 runs and recorder-based assertions are skipped)
 pub fn active() -> bool {
-    unsafe { REC_NEW > 0 }
+    unsafe { crate::stubs::G.rec_new > 0 }
 }
